@@ -188,7 +188,7 @@ def api_of(path):
         return 1
     if 'etree' in p or 'elementtree' in p or 'lxml' in p:
         return 2
-    if 'sax' in p:
+    if 'sax' in p or 'expatreader' in p:
         return 0
     return 3
 
